@@ -159,10 +159,10 @@ func Parse(s string) (*DPoP, error) {
 	if token.IssuedAt().IsZero() {
 		return nil, fmt.Errorf("%w: missing iat claim", ErrInvalidDPoP)
 	}
-	if v, ok := token.Get(HTUKey); !ok || v == "" {
+	if v, _ := token.Get(HTUKey); stringClaim(v) == "" {
 		return nil, fmt.Errorf("%w: missing htu claim", ErrInvalidDPoP)
 	}
-	if v, ok := token.Get(HTMKey); !ok || v == "" {
+	if v, _ := token.Get(HTMKey); stringClaim(v) == "" {
 		return nil, fmt.Errorf("%w: missing htm claim", ErrInvalidDPoP)
 	}
 	if token.JwtID() == "" {
@@ -192,20 +192,22 @@ func jwkIsPrivateKey(jwk jwk.Key) bool {
 	return false
 }
 
+// stringClaim returns the claim value if it is a string, an empty string otherwise (absent or of another JSON type).
+func stringClaim(value interface{}) string {
+	s, _ := value.(string)
+	return s
+}
+
 // HTU returns the htu claim of the DPoP token
 func (t DPoP) HTU() string {
-	if v, ok := t.Token.Get(HTUKey); ok {
-		return v.(string)
-	}
-	return ""
+	v, _ := t.Token.Get(HTUKey)
+	return stringClaim(v)
 }
 
 // HTM returns the htm claim of the DPoP token
 func (t DPoP) HTM() string {
-	if v, ok := t.Token.Get(HTMKey); ok {
-		return v.(string)
-	}
-	return ""
+	v, _ := t.Token.Get(HTMKey)
+	return stringClaim(v)
 }
 
 // Match checks if the JWK, http method, domain and path of the DPoP tokens match
